@@ -195,6 +195,10 @@ def snapshot_library_state():
                         snap[(m.__name__, n)] = copy.deepcopy(v)
                     except Exception:  # noqa  (a container of modules/functions: not state the library writes to)
                         pass
+                elif callable(v) and getattr(v, "__module__", None) == m.__name__:
+                    for i, dflt in enumerate(getattr(v, "__defaults__", None) or ()):
+                        if isinstance(dflt, (dict, list, set)):        # mutable default argument = hidden state
+                            snap[(m.__name__, n, i)] = copy.deepcopy(dflt)
         _LIB_SNAP[0] = snap
     return _LIB_SNAP[0]
 
@@ -230,6 +234,13 @@ def reset_library_state():
                     v.cache_clear()
                 except Exception:  # noqa
                     pass
+            elif callable(v) and getattr(v, "__module__", None) == m.__name__:
+                for i, dflt in enumerate(getattr(v, "__defaults__", None) or ()):
+                    if isinstance(dflt, (dict, list, set)):
+                        want = snap.get((m.__name__, n, i))
+                        if want is not None and type(want) is type(dflt) and dflt != want:
+                            dflt.clear()
+                            (dflt.extend if isinstance(dflt, list) else dflt.update)(copy.deepcopy(want))
 
 
 def _run_shard(job):
